@@ -411,7 +411,7 @@ def run_shard(spec, acc):
         check_case(spec["witness"]["seed"], acc, icase=bool(spec["witness"].get("icase")))
         return
     tier, k, n = spec["tier"], spec["shard"], spec["nshards"]
-    total = 4000 if tier == "quick" else 160000
+    total = 8000 if tier == "quick" else 160000
     rng = random.Random("C03/%s/%s" % (spec["seed"], k))
     for j in range(total // n):
         w = check_case(rng.randrange(1 << 48), acc)
